@@ -1,4 +1,5 @@
 import Proofs.Codec
+import Generated.Facts
 /-! # C09 — emitted packets decode to the request; invalid arguments are denied
 
 Model: `Model.Compose` (the client's composers, transcribed from request.go /
@@ -482,5 +483,12 @@ example : decodePacket (subscribePacket 0x6000 [[0x61, 0x2f, 0x23], [0x62]] 1)
   C09_subscribe_roundtrip 0x6000 (by decide) (by decide) _ 1 (by decide) (by decide)
 example : ({ userName := [0x75], password := some [1, 2], will := { topic := [0x77], message := some [0x6d], exactlyOnce := true },
              keepAlive := 60, cleanSession := true } : Cfg).valid = none := by decide
+
+/-- REGENERATED FACT. The three composers refuse a request only when its remaining length *exceeds* the four-byte limit, as the
+extractor reads the comparisons off the source on every run: a request of exactly 268,435,455 bytes is valid and must not be
+denied (the round-trip theorems above hold up to and including that size). -/
+theorem C09_fact_size_limits :
+    Facts.syn_subscribeLevel_sizeLimit = "size > packetMax" ∧ Facts.syn_Unsubscribe_sizeLimit = "size > packetMax" ∧
+    Facts.syn_publishPacket_sizeLimit = "size > packetMax" ∧ Facts.packetMax = 268435455 := by decide
 
 end Model
